@@ -190,6 +190,7 @@ func runCodec(cfg *Cfg) {
 		boundaryPass(out, t, cfg.Tier, modelOK)
 		reusePass(out, t, r, cfg.Tier, en)
 		bigMapPass(out, t, modelOK)
+		adjacentValuePass(out, t, modelOK)
 		for c := 0; c < perTarget; c++ {
 			g := &vval.GenOpts{MaxDepth: 1 + r.Intn(4), Unknown: r.Chance(50), NilJunk: r.Chance(12), BadUTF8: r.Chance(8), BigMaps: r.Chance(10), BigBlobs: r.Chance(8), EnumNums: en}
 			v := g.Message(r, t.S, 0, 0)
@@ -326,6 +327,23 @@ func codecCase(out *Out, t *Target, v *vval.Val, vs string, junk, u8, modelOK bo
 			}
 			if modelOK {
 				out.Line("C02", "renc "+t.S.ID+" 0 "+vs, "ok "+hexs(refBytes))
+			}
+		}
+	}
+	// values holding nil junk (nil list elements, nil map values, wrappers without payload, typed-nil wrappers) cannot be
+	// given to the reference as they are; they must size and encode exactly like the same value with the junk replaced
+	// by what it stands for (an empty message / an unset oneof), which IS compared with the reference above
+	if junk && u8 && !snan {
+		clean := t.B.ToMessage(0, normalize(t.S, 0, v))
+		var cb []byte
+		var cs int
+		if p, _ := guard(func() { cs = proto.Size(clean); cb, _ = proto.MarshalOptions{Deterministic: true}.Marshal(clean) }); !p {
+			if size != cs {
+				out.Violate("C04", "nil-junk-size", fmt.Sprintf("Size=%d for a value holding nil junk, %d for the value it stands for", size, cs), replay("size"))
+			}
+			if !bytes.Equal(detBytes, cb) {
+				out.Violate("C04", "nil-junk-bytes", "value holding nil junk encodes as "+hexs(detBytes)+", the value it stands for as "+hexs(cb), replay("enc"))
+				out.Violate("C02", "nil-junk-bytes", "value holding nil junk encodes as "+hexs(detBytes)+", the value it stands for as "+hexs(cb), replay("enc"))
 			}
 		}
 	}
@@ -617,5 +635,52 @@ func bigMapPass(out *Out, t *Target, modelOK bool) {
 		// twice: state left behind by the first marshal (a pooled buffer that grew) must not change the second
 		codecCase(out, t, v, vs, false, true, modelOK)
 		codecCase(out, t, v, vs, false, true, modelOK)
+	}
+}
+
+// adjacentValuePass: values in which the LAST thing written before a short string / bytes field (a oneof member is
+// written after all regular fields; a regular field with a larger number) is a repeated message / bytes / string
+// field, with payload lengths 0, 1, 2, 3 and (number of the repeated field) >> 4 — see adjacencyPass of the decode
+// engine; here as a round trip through the generated encoder.
+func adjacentValuePass(out *Out, t *Target, modelOK bool) {
+	m := &t.S.Msgs[0]
+	cases := 0
+	for j := range m.Fields {
+		f := &m.Fields[j]
+		if f.Shape != vschema.Repeated || !(f.IsMsg || f.Kind.IsBlob()) || f.Extern != "" {
+			continue
+		}
+		for k := range m.Fields {
+			g := &m.Fields[k]
+			if k == j || g.IsMsg || !g.Kind.IsBlob() || !(g.Shape == vschema.Oneof || (g.Shape == vschema.Singular && g.Num > f.Num)) {
+				continue
+			}
+			for _, l := range []int{1, 2, 3, (f.Num >> 4) & 0x7f} {
+				for _, fill := range []byte{'y', 0} {
+					if l == 0 {
+						continue
+					}
+					if cases++; cases > 120 {
+						return
+					}
+					v := vval.Empty(t.S, 0)
+					var el *vval.Val
+					if f.IsMsg {
+						el = vval.Empty(t.S, f.Msg)
+					} else {
+						el = vval.VBlob(f.Kind == vschema.Bytes, []byte("e"))
+					}
+					v.Kids[j] = vval.VList(true, []*vval.Val{el, el})
+					blob := vval.VBlob(g.Kind == vschema.Bytes, bytes.Repeat([]byte{fill}, l))
+					if g.Shape == vschema.Oneof {
+						v.Kids[k] = vval.VOne(blob)
+					} else {
+						v.Kids[k] = blob
+					}
+					out.Count("adjacent_value_cases")
+					codecCase(out, t, v, v.String(), false, true, modelOK)
+				}
+			}
+		}
 	}
 }
